@@ -3,7 +3,7 @@ from checks import rapid, plain, fuzz, REPLAY
 CHECK = dict(
     pkg="c11", level="exploration",
     rule="placeholder",
-    jobs=[REPLAY, rapid("prop", "TestVerifProp", 8000, 240000, sq=16, st=16)],
+    jobs=[REPLAY, rapid("prop", "TestVerifProp", 48000, 4000000, sq=16, st=16)],
     technique="placeholder",
     level_text="placeholder",
     level_note="placeholder",
